@@ -17,7 +17,7 @@ func init() {
 
 func runC18(c *Ctx) {
 	c.Rule("R18a", "registry: the analyzer list of every driver check package (mysqlcheck, postgrescheck, sqlitecheck) contains destructive.New's result; destructive.New defaults Error to true", 4)
-	c.Rule("R18b", "decision table: destructive.Analyze reports DropSchema, DropTable and ModifyTable→DropColumn; each Diagnostic's Pos is the Stmt.Pos of the change being examined; exemptions compare a span with SpanTemporary (or the schema span with SpanDropped) for equality; non-empty diagnostics reach WriteReport and, with Error, a non-nil return", 8)
+	c.Rule("R18b", "decision table: destructive.Analyze reports DropSchema, DropTable and ModifyTable→DropColumn; each Diagnostic's Pos is the Stmt.Pos of the change being examined; exemptions compare a span with SpanTemporary (or the schema span with SpanDropped) for equality; non-empty diagnostics reach WriteReport and, with Error, a non-nil return", 5)
 	c.Rule("R18c", "sqlite: in the list returned by sqlitecheck.analyzers the element that rewrites Pass.File.Changes (merge of the table rebuild) precedes every other analyzer", 1)
 	c.Rule("R18d", "per-statement derivation in DevLoader.nextStmts: ExecContext ≺ inspect ≺ RealmDiff(state before, state after) ≺ append of a Change carrying this statement ≺ state advanced; DevLoader.LoadChanges uses the whole-file shortcut `first` only under len(base) == 0 for the first file", 6)
 	c.Rule("R18e", "the lint runner appends every analyzer error of a file to the file report and keeps analysing the other analyzers", 2)
